@@ -122,15 +122,14 @@ func Decode(reader io.Reader, values ...interface{}) (err error) {
 				return errors.WithMessage(err, "reading length of binary data")
 			}
 
-			// Nothing to be decoded when length is zero.
-			if length == 0 {
-				break
-			}
-
+			// Nothing to be read when length is zero, but the value still has
+			// to see (and validate) its empty encoding.
 			var data ByteSlice = make([]byte, length)
-			err = data.Decode(reader)
-			if err != nil {
-				return errors.WithMessage(err, "reading binary data")
+			if length != 0 {
+				err = data.Decode(reader)
+				if err != nil {
+					return errors.WithMessage(err, "reading binary data")
+				}
 			}
 
 			err = v.UnmarshalBinary(data)
